@@ -50,7 +50,12 @@ impl Records {
                             bytes.push(*i);
                         }
                     },
-                    _ => complete = false
+                    // only the chunk where the record starts has to exist
+                    _ => if chunk_num==start_chunk { complete = false }
+                }
+                // a hole or a short chunk reads as zeros, which also terminates the record
+                while bytes.len() < (chunk_num+1-start_chunk)*chunk_len {
+                    bytes.push(0);
                 }
             }
             if complete && start_offset < bytes.len() {
